@@ -5,9 +5,10 @@
 pid=$1; wt=$2; shift 2; extra="$@"
 set -u
 cd $wt || exit 2
-echo "== demo with the change"; PYTHONPATH=$wt /venv/bin/python SEED/demo.py > /tmp/seed_demo_with.txt 2>&1; w=$?; tail -n 3 /tmp/seed_demo_with.txt; echo "exit $w"
+if [ "${PHASE:-all}" != "checks" ]; then
+echo "== demo with the change"; PYTHONPATH=$wt /venv/bin/python SEED/demo.py > /tmp/seed_demo_with_$pid.txt 2>&1; w=$?; tail -n 3 /tmp/seed_demo_with_$pid.txt; echo "exit $w"
 git -C $wt apply -R SEED/patch.diff || { echo "cannot reverse patch"; exit 2; }
-echo "== demo without the change"; PYTHONPATH=$wt /venv/bin/python SEED/demo.py > /tmp/seed_demo_without.txt 2>&1; wo=$?; tail -n 2 /tmp/seed_demo_without.txt; echo "exit $wo"
+echo "== demo without the change"; PYTHONPATH=$wt /venv/bin/python SEED/demo.py > /tmp/seed_demo_without_$pid.txt 2>&1; wo=$?; tail -n 2 /tmp/seed_demo_without_$pid.txt; echo "exit $wo"
 git -C $wt apply SEED/patch.diff
 echo "== pinned suite with the change"
 /venv/bin/python - $wt <<'PY'
@@ -25,6 +26,8 @@ with tempfile.TemporaryDirectory() as td:
 missing = [t for t in base['stable_pass'] if t not in passed]
 print(f"stable_pass={len(base['stable_pass'])} passed_now={len(passed)} missing={len(missing)}", missing[:3])
 PY
+fi
+[ "${PHASE:-all}" = "confirm" ] && exit 0
 echo "== checks on /repo with the patch applied"
 git -C /repo status --short | grep -q . && { echo "/repo not clean"; exit 2; }
 git -C /repo apply $wt/SEED/patch.diff || { echo "patch does not apply to /repo"; exit 2; }
